@@ -238,7 +238,7 @@ pub fn drive(tier: &str) -> i32 {
         run.capped = true;
     }
     let mut ev = Evidence::new("model_checking");
-    ev.set("rule", "jump layouts: up to 3 labelled blocks in every order (quick: two orders for 3 blocks), each ending in fall-through / END / RETURN / GOTO x / GOSUB x / RETURN x for every x, entered by fall-through or by GOTO, at module level and inside a SUB, every block counting its executions (the program stops after 7). loop escapes: every nest of 1..3 loops over {FOR, FOR STEP -1, WHILE, DO..LOOP UNTIL} with pairwise distinct bounds, a GOTO from the innermost body to a label in the body of every shallower level and after the nest, a GOSUB to a routine after the nest; the same with IF / ELSE / CASE / CASE ELSE blocks between the loops. jumps into a block: GOTO to a label in the middle of an IF / ELSEIF / ELSE / CASE / CASE ELSE block, a WHILE / DO body or an IF inside a WHILE, at module level and inside a SUB, once and three times in a row. failing block headers: an IF / ELSEIF / second ELSEIF / single-line IF / WHILE / DO WHILE / DO UNTIL / LOOP WHILE / LOOP UNTIL condition, a SELECT CASE subject, a first / second CASE test, a FOR start / limit that divides by zero under ON ERROR GOTO + RESUME (the handler repairs the divisor), at module level and in a SUB: apart from the handler's line the output is that of the repaired program. jumps across scopes: GOTO / GOSUB / RETURN label from a SUB to a module-level label, from the module level into a SUB and from one SUB into another must be rejected with Label not defined at the row of the jump. one fault: 9 failing statement kinds (incl. a built-in that fails after a user FUNCTION has returned within the same statement) x 17 containers (main, IF / ELSE / ELSEIF blocks, single-line IF, first / middle / ELSE CASE blocks, FOR / FOR STEP / WHILE / DO bodies, an IF block that ends a FOR body, SUB and FUNCTION bodies, the end of the module with subprograms following) x 3 positions x 9 handler modes (none, RESUME with the operand repaired, RESUME NEXT, RESUME label, ON ERROR RESUME NEXT, ON ERROR GOTO 0, a handler that fails itself, and in loop bodies two handlers that resume the first and the second failure of the same statement differently) x handler action. handler histories: the full tree of sequences up to the depth over {ON ERROR GOTO H1, ON ERROR GOTO H2, ON ERROR GOTO 0, ON ERROR RESUME NEXT, failing statement, trace}. Every program is one path of the reference machine (explicit GOSUB stack, handler mode, pending error) replayed on the implementation; trace output, ERR values and the end state with its row are compared.");
+    ev.set("rule", "jump layouts: up to 3 labelled blocks in every order (quick: two orders for 3 blocks), each ending in fall-through / END / RETURN / GOTO x / GOSUB x / RETURN x for every x, entered by fall-through or by GOTO, at module level and inside a SUB, every block counting its executions (the program stops after 7). loop escapes: every nest of 1..3 loops over {FOR, FOR STEP -1, WHILE, DO..LOOP UNTIL} with pairwise distinct bounds, a GOTO from the innermost body to a label in the body of every shallower level and after the nest, a GOSUB to a routine after the nest; the same with IF / ELSE / CASE / CASE ELSE blocks between the loops. jumps into a block: GOTO to a label in the middle of an IF / ELSEIF / ELSE / CASE / CASE ELSE block, a WHILE / DO body or an IF inside a WHILE, at module level and inside a SUB, once and three times in a row. failing block headers: an IF / ELSEIF / second ELSEIF / single-line IF / WHILE / DO WHILE / DO UNTIL / LOOP WHILE / LOOP UNTIL condition, a SELECT CASE subject, a first / second CASE test, a FOR start / limit that divides by zero under ON ERROR GOTO + RESUME (the handler repairs the divisor), at module level and in a SUB: apart from the handler's line the output is that of the repaired program. jumps across scopes: GOTO / GOSUB / RETURN label from a SUB to a module-level label, from the module level into a SUB and from one SUB into another must be rejected with Label not defined at the row of the jump. one fault: 10 failing statement kinds (incl. a built-in that fails after a user FUNCTION has returned within the same statement, also a FUNCTION that itself executes ON ERROR RESUME NEXT) x 17 containers (main, IF / ELSE / ELSEIF blocks, single-line IF, first / middle / ELSE CASE blocks, FOR / FOR STEP / WHILE / DO bodies, an IF block that ends a FOR body, SUB and FUNCTION bodies, the end of the module with subprograms following) x 3 positions x 9 handler modes (none, RESUME with the operand repaired, RESUME NEXT, RESUME label, ON ERROR RESUME NEXT, ON ERROR GOTO 0, a handler that fails itself, and in loop bodies two handlers that resume the first and the second failure of the same statement differently) x handler action. handler histories: the full tree of sequences up to the depth over {ON ERROR GOTO H1, ON ERROR GOTO H2, ON ERROR GOTO 0, ON ERROR RESUME NEXT, failing statement, trace}. Every program is one path of the reference machine (explicit GOSUB stack, handler mode, pending error) replayed on the implementation; trace output, ERR values and the end state with its row are compared.");
     ev.set("exhaustive", !run.capped);
     ev.set("plan", json!(plan));
     ev.set("states", states);
